@@ -24,7 +24,7 @@ INF = float("inf")
 VALUES = {
     "s": [("x", "x"), ("hello", "hello"), ("a=b", "a=b"), ("with space", "with space"), ("é中", "é中"),
           ("0", "0"), ("=", "="), ("x-y", "x-y"), ("true", "true"), ("one\ntwo", "one\ntwo"), ("end\n", "end\n"),
-          ("tab\there", "tab\there"), ("'q\"", "'q\"")],
+          ("tab\there", "tab\there"), ("'q\"", "'q\""), ("=x", "=x"), ("==c", "==c")],  # round 9: leading equals signs
     "b": [(True, "true"), (True, "1"), (True, "yes"), (True, "on"), (False, "false"), (False, "0"),
           (False, "no"), (False, "off")],
     "i": [(0, "0"), (-3, "-3"), (7, "007"), (42, "42"), (5, "+5"), (2 ** 70 + 1, str(2 ** 70 + 1)), (-1, "-1")],
